@@ -569,6 +569,10 @@ type c35Run struct {
 	in      *c35Init
 	order   []c35Z // Explode: observed map order of the rename loop
 	orderSt []c35Z // Explode: observed map order of the loop removing stale sidecars at the destination names
+	// a kill point was planned but never reached: Explode's stale-sidecar loop stops at its first failure and runs in
+	// map order, so an operation seen after a fault in one run need not happen in the next; the run then simply
+	// completed and is emitted as a run without kill
+	killMissed bool
 }
 
 func c35Exec(t *testing.T, sc *c35Scenario, fault *c35Fault, kill *c35Fault) *c35Run {
@@ -642,7 +646,15 @@ func c35Exec(t *testing.T, sc *c35Scenario, fault *c35Fault, kill *c35Fault) *c3
 		r.ops = append(r.ops, c35MapOp(t, in, o))
 	}
 	if kill != nil {
-		r.code = 3
+		r.killMissed = true
+		for _, o := range r.raw {
+			if o.Result == "killed" {
+				r.killMissed = false
+			}
+		}
+		if !r.killMissed {
+			r.code = 3
+		}
 	}
 	return r
 }
@@ -792,7 +804,8 @@ func c35Emit(t *testing.T, sc *c35Scenario, fault, kill *c35Fault, r *c35Run, in
 
 // force: "" = random; "merge:<variant>" / "explode:<variant>" = a plain scenario of that mode with an orphan
 // sidecar of that variant (tomb|prio|garbage|dir) at a destination name; "explode:shadowed" = destination taken by
-// a shard with a sidecar.  Every run of the check starts with these so that the class is always covered.
+// a shard with a sidecar; "<mode>:reindexed" = a compound with a tombstoned member that is alive in a simple shard
+// beside it.  Every run of the check starts with these so that the classes are always covered.
 func c35Gen(r *vfRand, force string) *c35Scenario {
 	sc := &c35Scenario{mode: r.Intn(2)}
 	variant := ""
@@ -800,6 +813,7 @@ func c35Gen(r *vfRand, force string) *c35Scenario {
 		sc.mode = map[string]int{"merge": 0, "explode": 1}[force[:i]]
 		variant = force[i+1:]
 	}
+	orphanVariant := variant != "" && variant != "shadowed" && variant != "reindexed"
 	perm := []int{1, 2, 3, 4, 5, 6, 7}
 	for i := len(perm) - 1; i > 0; i-- {
 		j := r.Intn(i + 1)
@@ -823,10 +837,10 @@ func c35Gen(r *vfRand, force string) *c35Scenario {
 			sc.names = append(sc.names, c35Simple(m.id))
 		}
 		sc.label = []string{fmt.Sprintf("inputs=%d", k)}
-		if r.Chance(35) && next+2 <= len(perm) { // a compound input, possibly with tombstones
+		if (r.Chance(35) || variant == "reindexed") && next+2 <= len(perm) { // a compound input, possibly with tombstones
 			ms := []c35Meta{fresh(), fresh()}
 			lab := "compound-input"
-			if r.Chance(60) {
+			if r.Chance(60) || variant == "reindexed" {
 				ms[r.Intn(2)].tomb = true
 				lab += "+tombstone"
 			}
@@ -864,11 +878,11 @@ func c35Gen(r *vfRand, force string) *c35Scenario {
 			sc.label = append(sc.label, "dst-obstacle")
 			sc.dirs = append(sc.dirs, []string{"z", "t"}[r.Intn(2)])
 		}
-		if r.Chance(30) || force != "" {
+		if (r.Chance(30) && force == "") || orphanVariant {
 			// an orphan sidecar waits at the destination name (left by a run killed between removing an earlier
 			// compound of the same repositories and removing its .meta); resolved once the destination is known
 			sc.orphanDst = []string{"tomb", "tomb", "tomb", "tomb", "prio", "prio", "garbage", "garbage", "dir", "dir"}[r.Intn(10)]
-			if variant != "" {
+			if orphanVariant {
 				sc.orphanDst = variant
 			}
 			sc.orphanPick = r.Intn(1000)
@@ -876,12 +890,18 @@ func c35Gen(r *vfRand, force string) *c35Scenario {
 		}
 	} else {
 		k := 1 + r.Intn(3)
+		if force != "" && k < 2 {
+			k = 2
+		}
+		if force == "explode:tomb" {
+			k = 3 // at least two live repositories: two renames, the first forced scenario gets every single fault
+		}
 		var ms []c35Meta
 		for i := 0; i < k; i++ {
 			ms = append(ms, fresh())
 		}
 		lab := fmt.Sprintf("repos=%d", k)
-		if k > 1 && r.Chance(50) {
+		if k > 1 && (r.Chance(50) || variant == "reindexed") {
 			ms[r.Intn(k)].tomb = true
 			lab += "+tombstone"
 		}
@@ -918,8 +938,10 @@ func c35Gen(r *vfRand, force string) *c35Scenario {
 			v := r.Intn(20)
 			if variant == "shadowed" {
 				v = 8
-			} else if variant != "" {
+			} else if orphanVariant {
 				v = 0
+			} else if force != "" {
+				v = 19
 			}
 			switch {
 			case v < 7:
@@ -935,7 +957,7 @@ func c35Gen(r *vfRand, force string) *c35Scenario {
 				}
 				sd := c35Sidecar{z: c35Simple(m.id)}
 				w := r.Intn(10)
-				if variant != "" {
+				if orphanVariant {
 					w = map[string]int{"tomb": 0, "prio": 4, "garbage": 6, "dir": 8}[variant]
 				}
 				switch {
@@ -978,7 +1000,7 @@ func c35Gen(r *vfRand, force string) *c35Scenario {
 	for _, l := range sc.label {
 		special = special || strings.HasPrefix(l, "orphan") || l == "shadowed-dst" || l == "simple-obstacle"
 	}
-	if !special && r.Chance(50) {
+	if !special && (r.Chance(50) || variant == "reindexed") {
 		for _, ms := range sc.compounds {
 			for _, m := range ms {
 				if m.tomb {
@@ -1049,7 +1071,7 @@ func TestVerifC35(t *testing.T) {
 	r := vfNewRand(vfSeed())
 	budget := vfN(400)
 	emitted := 0
-	forced := []string{"explode:tomb", "merge:tomb", "explode:shadowed", "merge:dir"}
+	forced := []string{"explode:tomb", "merge:tomb", "explode:shadowed", "merge:dir", "explode:reindexed", "merge:reindexed"}
 	if vfTier() == "thorough" {
 		forced = append(forced, "explode:dir", "merge:garbage", "merge:prio", "explode:garbage", "explode:prio")
 	}
@@ -1087,14 +1109,20 @@ func TestVerifC35(t *testing.T) {
 				faults = append(faults, &c35Fault{op: o, occ: c35Occ(base.ops, i), mode: "badwrite"})
 			}
 		}
-		if force != "" && vfTier() != "thorough" {
-			faults = nil // the forced scenarios: fault-free run + every kill point; faults come with the random ones
+		if force != "" && force != "explode:tomb" && vfTier() != "thorough" {
+			// quick tier, forced scenarios: fault-free run + every kill point (the first one also gets every
+			// single fault, without kills after it); the random scenarios below get everything
+			faults = nil
 		}
 		// kills without fault
 		for i, o := range base.ops {
 			if o.mut {
 				k := &c35Fault{op: o, occ: c35Occ(base.ops, i), mode: "fail"}
-				c35Emit(t, sc, nil, k, c35Exec(t, sc, nil, k), initial)
+				kr := c35Exec(t, sc, nil, k)
+				if kr.killMissed {
+					t.Fatalf("harness: kill point %s of a fault-free run was not reached", k.op.coq)
+				}
+				c35Emit(t, sc, nil, k, kr, initial)
 				emitted++
 			}
 		}
@@ -1104,11 +1132,15 @@ func TestVerifC35(t *testing.T) {
 			emitted++
 			// kills after this fault (a sample in the quick tier)
 			for i, o := range fr.ops {
-				if !o.mut || (vfTier() != "thorough" && !r.Chance(25)) {
+				if !o.mut || (vfTier() != "thorough" && (force != "" || !r.Chance(25))) {
 					continue
 				}
 				k := &c35Fault{op: o, occ: c35Occ(fr.ops, i), mode: "fail"}
-				c35Emit(t, sc, f, k, c35Exec(t, sc, f, k), initial)
+				kr := c35Exec(t, sc, f, k)
+				if kr.killMissed {
+					k = nil
+				}
+				c35Emit(t, sc, f, k, kr, initial)
 				emitted++
 			}
 		}
